@@ -49,7 +49,7 @@ PLAN = {
  "C05r_m3": [("C05", ["--only", "gf25519"])], "C05r_m4": [("C05", ["--only", "gfsecp256k1"])],
  "C12r_m1": [("C01", ["--only", "gfsecp256k1"]), ("C12", [])], "C12r_m2": [("C12", ["--only", "lin"])], "C12r_m3": [("C12", ["--only", "lin"])], "C12r_m4": [("C12", ["--only", "batch"])],
  "C15r_m1": [("C06", ["--only", "p256"])], "C15r_m2": [("C10", [])], "C15r_m3": [("C06", ["--only", "ed448"])], "C15r_m4": [("C11", ["--only", "secp256k1.split_theta"])],
- "C16r_m1": [("C16", [])], "C16r_m2": [("C16", [])], "C16r_m3": [("C16", [])], "C16r_m4": [("C16", [])],
+ "C16r_m1": [("C16", [])], "C16r_m2": [("C16", [])], "C16r_m3": [("C16", ["--only", "corpus"])], "C16r_m4": [("C16", ["--only", "corpus"])],
  "C18r_m1": [("C11", ["--only", "zz"])], "C18r_m2": [("C01", ["--only", "gf25519"])], "C18r_m3": [("C01", ["--only", "gfsecp256k1"])],
  "C18r_m4": [("C06", ["--only", "ed448"])],
  "C07s_m1": [("C07", ["--only", "sign"])], "C07s_m2": [("C07", ["--only", "sign"])], "C07s_m3": [("C07", ["--only", "sign"])],
